@@ -2,6 +2,7 @@ package harness
 
 import (
 	"fmt"
+	"strings"
 
 	"verifsim/simrt"
 )
@@ -35,11 +36,14 @@ type Profile struct {
 	PopularP       float64          // probability of a transaction that points many refs at one object id
 	FwdLogP        float64          // probability that a new log entry is forward-dated (update index above its table's limits)
 	PrefixNamesP   float64          // probability that a run uses the prefix-rich alphabet (name-check refusals)
+	LongNamesP     float64          // probability that a run uses names longer than 127 bytes
 }
 
 var defaultNames = []string{"HEAD", "refs/heads/a", "refs/heads/b", "refs/heads/c", "refs/tags/t", "refs/tags/u", "refs/x/y", "refs/x/z"}
 
-var prefixNames = []string{"a", "a/b", "a/b/c", "a/bb", "ab", "b", "b/a", "a/b/c/d", "b/a/c"}
+// prefix-rich alphabet; "a-b", "a.b", "a!" sort between "a" and "a/b"
+// ('!', '-', '.' < '/'), "a0" right after every "a/...".
+var prefixNames = []string{"a", "a/b", "a/b/c", "a/bb", "ab", "b", "b/a", "a/b/c/d", "b/a/c", "a-b", "a.b", "a!", "a0", "b/a-", "b/a/c0"}
 var badNames = []string{"a//b", "a/./b", "a/../b", "/a", "a/", ".", "b/.."}
 
 func pickN(r *simrt.Rng, lo, hi int) int {
@@ -282,6 +286,14 @@ func (g *genCtx) pickNames() {
 		g.names = ns
 	} else if g.p.PrefixNamesP > 0 && g.r.Bool(g.p.PrefixNamesP) {
 		g.names = prefixNames
+	} else if g.p.LongNamesP > 0 && g.cfg.BlockSize != 128 && g.cfg.BlockSize != 256 && g.r.Bool(g.p.LongNamesP) {
+		// names longer than 127 bytes: two-byte prefix/suffix varints in the key encoding
+		var ns []string
+		stem := "refs/heads/" + strings.Repeat("long-branch-name-", 8)
+		for i := 0; i < 12; i++ {
+			ns = append(ns, fmt.Sprintf("%s%c/%02d", stem, 'a'+i%3, i))
+		}
+		g.names = ns
 	} else if len(g.names) > 3 && g.r.Bool(0.3) {
 		// narrow alphabet: more shadowing
 		g.names = g.names[:3]
